@@ -527,6 +527,18 @@ func isChainNode(node Node) (chainnodeAlias, bool) {
 	if ok {
 		return &barrier.chainnode, true
 	}
+	combine, ok := node.(*CombineNode)
+	if ok {
+		return &combine.chainnode, true
+	}
+	k8s, ok := node.(*K8sAutoscaleNode)
+	if ok {
+		return &k8s.chainnode, true
+	}
+	swarm, ok := node.(*SwarmAutoscaleNode)
+	if ok {
+		return &swarm.chainnode, true
+	}
 	return nil, false
 }
 
